@@ -337,6 +337,46 @@ impl ExpertNode {
 }
 
 
+// ---- Edge::on_change: delivering a child's value to the user's change callback ----
+pub uninterp spec fn node_value(n: &ValueNode) -> Option<u64>;
+#[verifier::external_body]
+pub struct ValueNode { _p: u8 }
+impl ValueNode {
+    #[verifier::external_body]
+    pub fn value_as_ref(&self) -> (r: Option<u64>) ensures r == node_value(self) { unimplemented!() }
+}
+pub struct IncrU64 { pub node: ValueNode }
+/// permission predicate: which value the user's change callback may be handed now
+pub uninterp spec fn may_deliver(x: u64) -> bool;
+/// R8: the boxed user callback `Box<dyn FnMut(&T)>` is an opaque call
+#[verifier::external_body]
+pub fn vx_user_on_change<F>(h: &mut F, x: &u64) requires may_deliver(*x) { unimplemented!() }
+
+//@extract struct Edge
+//@ file: src/kind/expert.rs
+//@ name: Edge
+//@ cells: on_change, index
+//@ rule R8: `Edge<T>` => `Edge<F>` x1
+//@ rule R4: `child: Incr<T>` => `child: IncrU64` x1
+//@ rule R8: `Option<BoxedOnChange<T>>` => `Option<F>` x1
+//@end
+
+impl<F> Edge<F> {
+//@extract fn Edge::on_change
+//@ file: src/kind/expert.rs
+//@ impl: impl<T: Value> ExpertEdge for Edge<T>
+//@ name: on_change
+//@ as: fn on_change(&mut self)
+//@ cells: on_change
+//@ rule R8 re: `\bh\(` => `vx_user_on_change(h, ` x1
+//@ props: C14
+//@ contract:
+//@|     requires forall|x: u64| may_deliver(x) <==> node_value(&old(self).child.node) == Some(x),
+//@|     // [the-change-callback-never-panics-and-is-only-ever-handed-the-childs-current-value]: in particular a
+//@|     // child that has no value yet (edge just linked) is an obligation on the unwrap, not a precondition
+//@end
+}
+
 // ---- node.rs: adding / removing a dependency of an expert node.  R5p: the expert payload of `self`
 //      (`let Some(Kind::Expert(expert)) = self.kind() else { return; }`) is passed as `expert: &mut ExpertNode`;
 //      the multi-node callees are opaque, with call-site obligations (permission predicates). ----
